@@ -34,6 +34,13 @@ CHECKS['C17'] = dict(
     design_ref='DESIGN.md section 3 C17',
     note='dict backend only in this check; <= 3 sessions; which of several live read-write selections receives \\Recent is left open; STATUS (RECENT) of the selected mailbox is not compared (not in the property statement)',
     technique='explicit-state model checking of the implementation with a reference recency model')
+CHECKS['C12'] = dict(
+    engine='E5 explicit-state BFS over vf/checks/c12.py',
+    category='model_checking',
+    text='Exhaustive BFS (depth 2 quick / 3 thorough; the reachable state set is small because almost nothing may change, so every command is applied in every reachable state) over a ~200-command alphabet issued inside a read-only selection: every STORE/UID STORE mode x set x flag list, FETCH/UID FETCH with every \\Seen-setting and peeking item, COPY/MOVE/UID COPY/UID MOVE to read-write, read-only and missing destinations, EXPUNGE/UID EXPUNGE, CLOSE and re-entry, SEARCH, IDLE/DONE, APPEND into a read-only mailbox, an external delivery and a read-write observer. Variants: EXAMINE of a read-write mailbox; SELECT of a read-only mailbox. Oracles: persistent content of the selected mailbox (glass-box) unchanged by every command, STORE/EXPUNGE/adds into a read-only mailbox answer NO, CLOSE answers OK and deselects, and an independent read-write probe session on a discarded copy of every state sees the same dump (incl. which messages it is given as \\Recent) as before the program (+ deliveries).',
+    design_ref='DESIGN.md section 3 C12',
+    note='dict backend with demo data; <= 1 observer; COPY/APPEND by name into a read-write mailbox that the session merely EXAMINEd is treated as an ordinary delivery, not as an effect of the read-only selection',
+    technique='explicit-state model checking of the implementation; before/after dump oracle')
 NA = {}
 
 def main():
